@@ -54,7 +54,7 @@ if r4:
     out.append("Round 4: caught at the first attempt %d of %d; caught now %d of %d." % (
         sum(1 for m in r4 if first(m)), len(r4), sum(1 for m in r4 if now(m)), len(r4)))
 if r5:
-    out.append("Round 5 (ten properties): caught at the first attempt %d of %d; caught now %d of %d." % (
+    out.append("Round 5: caught at the first attempt %d of %d; caught now %d of %d." % (
         sum(1 for m in r5 if first(m)), len(r5), sum(1 for m in r5 if now(m)), len(r5)))
 out.append("""
 (C12-B only on the pre-fix tree: a later repair rewrote the same condition.)
